@@ -380,6 +380,13 @@ func (e *daemonEngine) checkRestart(n *dNode, startErr error) {
 			e.rec.Violate("C13", "group-and-share-of-different-epochs", facts, "node %s crashed %s: the share on disk does not belong to the group file on disk", n.addr, e.crashKind)
 		}
 	}
+	// files that say "member of this group, with this share": the restarted process must run that chain
+	if startErr == nil && g != nil && gerr == nil && sh != nil && serr == nil && g.Find(n.pairs[id].Public) != nil {
+		bp := e.bp(n, id)
+		if bp == nil || bp.VerifGroup() == nil || bp.VerifHandler() == nil {
+			e.rec.Violate("C13", "restarted-node-does-not-run-its-chain", facts, "node %s crashed %s: group file and share of one epoch are on disk and list it as a member, but after the restart it holds no group or runs no beacon handler", n.addr, e.crashKind)
+		}
+	}
 	// the DKG database's completed record vs the files
 	n.mu.Lock()
 	ds := n.dkgStore
